@@ -437,13 +437,77 @@ func recidAlias(s *common.Sign) *common.Sign {
 	return common.BytesToSign(b)
 }
 
-// malleate: (r, n-s, recid^1) is the other ECDSA signature of the same message by the same key.
+// normRecid is secp256k1.checkSignature's view of the last signature byte.
+func normRecid(v byte) byte {
+	if v > 26 {
+		return v - 27
+	}
+	return v
+}
+
+func mkSign(r, sv *big.Int, v byte) *common.Sign {
+	if r.BitLen() > 256 || sv.BitLen() > 256 || r.Sign() < 0 || sv.Sign() < 0 {
+		return nil
+	}
+	return common.BytesToSign(append(append(pad32(r.Bytes()), pad32(sv.Bytes())...), v))
+}
+
+// malleate: (r, n-s, parity flipped) is the other ECDSA signature of the same
+// message by the same key; the recovery id keeps its spelling (27/28 or 0/1).
 func malleate(s *common.Sign) *common.Sign {
 	b := s.Bytes()
+	base := b[64] - normRecid(b[64])
+	sv := new(big.Int).Sub(secpN, new(big.Int).SetBytes(b[32:64]))
+	return mkSign(new(big.Int).SetBytes(b[:32]), sv, base+(normRecid(b[64])^1))
+}
+
+type signVariant struct {
+	name string
+	sg   *common.Sign
+}
+
+// signFamily: the signatures algebraically related to an honest one (same r,
+// mirrored / shifted s, other parity, r+N, zero components, other spelling of
+// the recovery id).  Every member differs from the honest Sign in its bytes.
+func signFamily(s *common.Sign) []signVariant {
+	b := s.Bytes()
+	r := new(big.Int).SetBytes(b[:32])
 	sv := new(big.Int).SetBytes(b[32:64])
-	sv.Sub(secpN, sv)
-	nb := append(append(append([]byte{}, b[:32]...), pad32(sv.Bytes())...), b[64]^1)
-	return common.BytesToSign(nb)
+	ns := new(big.Int).Sub(secpN, sv)
+	p := normRecid(b[64])
+	var out []signVariant
+	add := func(n string, sg *common.Sign) {
+		if sg != nil && !bytes.Equal(sg.Bytes(), b) {
+			out = append(out, signVariant{n, sg})
+		}
+	}
+	for _, base := range []byte{27, 0} {
+		sp := "27"
+		if base == 0 {
+			sp = "0"
+		}
+		add("twin(r,N-s,v^1)/"+sp, mkSign(r, ns, base+(p^1)))
+		add("mirror-s(r,N-s,v)/"+sp, mkSign(r, ns, base+p))
+		add("parity(r,s,v^1)/"+sp, mkSign(r, sv, base+(p^1)))
+		add("r+N/"+sp, mkSign(new(big.Int).Add(r, secpN), sv, base+p))
+		add("r+N,recid+2/"+sp, mkSign(new(big.Int).Add(r, secpN), sv, base+p+2))
+		add("recid+2/"+sp, mkSign(r, sv, base+p+2))
+		add("s+N/"+sp, mkSign(r, new(big.Int).Add(sv, secpN), base+p))
+		add("N-r/"+sp, mkSign(new(big.Int).Sub(secpN, r), sv, base+p))
+		add("r=0/"+sp, mkSign(new(big.Int), sv, base+p))
+		add("s=0/"+sp, mkSign(r, new(big.Int), base+p))
+		add("s=N/"+sp, mkSign(r, secpN, base+p))
+		add("swap(s,r)/"+sp, mkSign(sv, r, base+p))
+		add("alias/"+sp, mkSign(r, sv, base+p))
+	}
+	return out
+}
+
+// sameSignature: identical (r,s) bytes and the same recovery id after the
+// 27..30 -> 0..3 mapping, i.e. only the spelling of the last byte differs.
+func sameSignature(a, b *common.Sign) bool {
+	x, y := a.Bytes(), b.Bytes()
+	return bytes.Equal(x[:64], y[:64]) && normRecid(x[64]) == normRecid(y[64])
 }
 
 // nativeMutants: every single-field mutation (one random variant per field)
@@ -487,6 +551,13 @@ func (g gen) nativeMutants(tx *types.Transaction, otherChain string) []mutant {
 	add("Sign", true, func(t *types.Transaction) { t.Sign = malleate(t.Sign) })
 	add("Sign-recid-alias", true, func(t *types.Transaction) { t.Sign = recidAlias(t.Sign) })
 	add("Sign", true, func(t *types.Transaction) { t.Sign = nil })
+	for _, v := range signFamily(tx.Sign) {
+		v := v
+		if strings.HasPrefix(v.name, "alias/") {
+			continue // covered by Sign-recid-alias
+		}
+		add("Sign-family", true, func(t *types.Transaction) { t.Sign = v.sg })
+	}
 	add("ExtraDataType", false, func(t *types.Transaction) { t.ExtraDataType++ })
 	add("RequestId", false, func(t *types.Transaction) { t.RequestId++ })
 	add("SocketRequestId", false, func(t *types.Transaction) { t.SocketRequestId += "x" })
